@@ -167,13 +167,6 @@ def replyLine (r : Option Reply) : String :=
     | _, _, some (_, d) => base ++ s!" size={d.length} payload=none"
     | _, _, _ => base
 
-/-- would the daemon answer after having received `head` only (connection still open)? -/
-def answersEarly (cfg : Config) (head : Bytes) : Bool :=
-  match lineLoop serverMaxLine (reqLine cfg.cap) head [] 0 {} with
-  | (_, .stopped, _) => true
-  | (st, .blank, _) => st.payloadLength.getD 0 == 0
-  | (_, .recvFailed, _) => false
-
 def isParseLevel (code : String) : Bool := code.startsWith "ERR_CONTROL_" || code == "ERR_MISSING_COMMAND" || code == "-"
 
 structure ImplReq where
@@ -241,15 +234,15 @@ def admitVerdict (st : St) (addr : String) (lines : List Bytes) (body : Bytes) (
     if st.cfg.token.isNone && !Spec.Control.rateOkAt Spec.Control.fetchLimit (timesOf okFetches addr) st.now then
       (st', s!"viol:rate-fetch:more than 12 streamed FETCHes from 127.0.0.{addr} accepted within 30 s")
     else (st', "ok")
-  else if mode == "early" && tooLarge && impl.early == some false then
-    (st, "viol:size-body-read:the daemon waited for the body of an oversized STORE")
+  else if mode == "early" && tooLarge && impl.code == "ERR_CONTROL_PAYLOAD_TRUNCATED" then
+    (st, "viol:size-body-read:the daemon tried to read the body of an oversized STORE before refusing it")
   else (st, "ok")
 
 def stepReq (mode : Mode) (st : St) (addr mode' headSpec bodyHex : String) (impl : Option String) : St × String × String :=
   let head := expandHead headSpec
   let body := bytesOr bodyHex
-  let early := mode' == "early" && answersEarly st.cfg head
-  let input := if mode' == "early" && early then head else head ++ body
+  -- `early`: the harness withholds the body altogether (head only, then half-close)
+  let input := if mode' == "early" then head else head ++ body
   let ops := nodeOps st.names st.now
   let (srv', reply) := handleClient sha256 ops st.cfg st.now (ascii addr) st.srv input
   let (names', accepted') := match reply with
@@ -259,8 +252,7 @@ def stepReq (mode : Mode) (st : St) (addr mode' headSpec bodyHex : String) (impl
     | none => (st.names, st.accepted)
   let st1 := { st with srv := srv', names := names', accepted := accepted' }
   let eff := effects st1
-  let earlyS := if mode' == "early" then (if early then " early=1" else " early=0") else ""
-  let out := replyLine reply ++ earlyS ++ " | " ++ eff
+  let out := replyLine reply ++ " | " ++ eff
   let prev := st.lastEffects.getD (effects st)
   match impl with
   | none => ({ st1 with lastEffects := some eff }, out, "ok")
